@@ -14,7 +14,7 @@
  *  nofile R sing nb                                  spec = file:<a path that does not exist>
  *  bind R nbth <binding>                             parse_binding_parameter(0, nbth, binding) on a calloc'd VP
  *  pinit nb <spec>                                   PARSEC_MCA_runtime_vpmap=<spec>, MPI_Init_thread, parsec_init(nb): counts only
- *  cinit nb sing c0,c1,...                           sched_setaffinity to the cpu list, PARSEC_MCA_runtime_singlify_bindings=sing,
+ *  cinit nb sing c0,c1,... [numcores]                       sched_setaffinity to the cpu list, PARSEC_MCA_runtime_singlify_bindings=sing,
  *                                                    MPI_Init_thread, parsec_init(nb) with the default map: per thread
  *                                                    "<es->core_id>:ok" or "<core>:OUT{affinity}" when the thread's real
  *                                                    affinity (pthread_getaffinity_np) leaves the process cpuset
@@ -244,13 +244,16 @@ static void do_cinit(char *l)      /* nb sing cpulist : the user path under a re
         if (!*p) break;
         char *e; long c = strtol(p, &e, 10); if (e == p) break;
         CPU_SET((int)c, &mask); p = e;
+        if (*p == ' ') break;
     }
+    long numcores = (*p == ' ') ? strtol(p, NULL, 10) : 0;      /* optional: runtime_num_cores (oversubscription) */
     if (sched_setaffinity(0, sizeof mask, &mask)) { emit("<sched_setaffinity failed>"); return; }
     fake_cores = 0;
     char sb[32]; snprintf(sb, sizeof sb, "%ld", sing);
     setenv("PARSEC_MCA_runtime_singlify_bindings", sb, 1);
     setenv("PARSEC_MCA_runtime_report_binding_issues", "0", 1);
     unsetenv("PARSEC_MCA_runtime_vpmap");
+    if (numcores > 0) { char nc[32]; snprintf(nc, sizeof nc, "%ld", numcores); setenv("PARSEC_MCA_runtime_num_cores", nc, 1); }
     int prov, argc = 1; char *av[] = { "h_vpmap", NULL }; char **argv = av;
     MPI_Init_thread(&argc, &argv, MPI_THREAD_SERIALIZED, &prov);
     parsec_context_t *ctx = parsec_init(nb, &argc, &argv);
